@@ -93,7 +93,7 @@ def model_case(cs, mx=None):
 
 def describe(cs):
     return {"rate": cs["rate"], "sw": cs["w"], "ch": cs["ch"], "analysis_window": cs["aw"], "window_samples": cs["W"], "bytes": len(cs["data"]),
-            "activity_pattern": cs["pattern"], "energy_threshold": cs["eth"], "use_channel": cs["uc"], **cs["params"]}
+            "activity_pattern": cs["pattern"] if len(cs["pattern"]) < 200 else "long", "energy_threshold": cs["eth"], "use_channel": cs["uc"], **cs["params"]}
 
 
 def impl_split(au, inp, cs, extra=None, **over):
@@ -162,6 +162,34 @@ def alias_sites():
     return found
 
 
+def large_cases(r, quick):
+    """audio beyond small sizes: a detection of thousands of windows ending in a partial window, windows of more than 65536
+    samples of multi-channel audio, blocks larger than a mebibyte, wav files of more than 2^22 frames"""
+    out = []
+
+    def mk(rate, w, ch, W, pattern, partial, mind, maxd, sil):
+        loud = {1: 100, 2: 3000, 4: 300000}[w]
+        vals = []
+        for k, on in enumerate(pattern):
+            n = W if (k < len(pattern) - 1 or not partial) else partial
+            if on:
+                base = [loud if (i % 2 == 0) else -loud for i in range(n)]
+            else:
+                base = [0] * n
+            for x in base:
+                vals.extend([x] * ch)
+        data = struct.pack("<%d%s" % (len(vals), FMT[w]), *vals)
+        aw = W / rate
+        return dict(rate=rate, w=w, ch=ch, W=W, aw=aw, data=data, pattern=pattern if len(pattern) < 100 else "run-lengths", eth={1: 30, 2: 50, 4: 90}[w], uc=None,
+                    params={"min_dur": mind, "max_dur": maxd, "max_silence": sil, "drop_trailing_silence": False, "strict_min_dur": False})
+    out.append(mk(16000, 2, 1, 16, [0] * 30 + [1] * 5000, 7, 0.2, 10.0, 0.3))          # one detection of 5000 windows + 7 samples
+    out.append(mk(96000, 2, 2, 96000, [0, 0, 0, 1, 1, 0, 0], 0, 1.0, 5.0, 0.0))          # windows of 96000 stereo samples
+    if not quick:
+        out.append(mk(8000, 1, 1, 8, [1] * 9000 + [0] * 50 + [1] * 4100, 3, 0.1, 20.0, 0.01))
+        out.append(mk(384000, 4, 8, 38400, [0, 1, 1, 0, 1, 0], 0, 0.1, 1.0, 0.0))
+    return out
+
+
 def run(prop, tier):
     res = C.Result(prop, tier)
     proof = C.proof_step(["Props/%s.v" % prop])
@@ -181,8 +209,9 @@ def run(prop, tier):
     os.makedirs(tmpd, exist_ok=True)
     try:
         if prop == "C05":
-            for _ in range(600 if quick else 8000):
-                cs = gen_case(r, quick)
+            todo = large_cases(r, quick) + [None] * (600 if quick else 8000)
+            for cs in todo:
+                cs = cs or gen_case(r, quick)
                 for how in ("function", "method"):
                     if how == "function":
                         got = impl_split(au, cs["data"], cs)
@@ -287,6 +316,38 @@ def run(prop, tier):
                     if viol is None and got != ref:
                         viol = {"what": "split() through '%s' differs from split() on the raw bytes (%d vs %d regions)" % (name, len(got[1]) if got[0] == 0 else -1, len(ref[1]) if ref[0] == 0 else -1),
                                 **describe(cs), "audio_bytes": list(d)[:2000]}
+        if prop == "C09":
+            big = [(384000, 4, 8, 38400, [0, 1, 1, 1, 0, 1, 1, 0]), (48000, 2, 2, 4800, [0] * 40 + ([1] * 5 + [0] * 95) * (9 if quick else 10) + [1] * 6 + [0] * 4)]
+            for bi, (rate, w, ch, W, pat) in enumerate(big):
+                loud = {2: 3000, 4: 300000}[w]
+                one_on = struct.pack("<%d%s" % (W * ch, FMT[w]), *[(loud if (i // ch) % 2 == 0 else -loud) for i in range(W * ch)])
+                one_off = bytes(W * ch * w)
+                d = b"".join(one_on if on else one_off for on in pat)
+                if bi == 1 and not quick:
+                    d = d + one_off * 10
+                raw_p = os.path.join(tmpd, "big%d.raw" % bi); wav_p = os.path.join(tmpd, "big%d.wav" % bi)
+                open(raw_p, "wb").write(d)
+                with wave.open(wav_p, "wb") as f:
+                    f.setframerate(rate); f.setsampwidth(w); f.setnchannels(ch); f.writeframes(d)
+                cs = dict(rate=rate, w=w, ch=ch, W=W, aw=W / rate, data=d, pattern="large", eth={2: 50, 4: 90}[w], uc=None,
+                          params={"min_dur": W / rate, "max_dur": 50 * W / rate, "max_silence": 0, "drop_trailing_silence": False, "strict_min_dur": False})
+
+                def brief(x):
+                    return x if x[0] else [0, [(C.me_float(q[1]), len(q[0])) for q in x[1]]]
+                ref = impl_split(au, d, cs)
+                t = (len(pat) - 1.5) * W / rate
+                pre = d[:round(t * rate) * w * ch]
+                ref_mr = impl_split(au, pre, cs)
+                for name, inp, extra, kwx, want in (("large raw file, lazy", raw_p, dict(large_file=True), None, ref), ("large raw file, eager", raw_p, {}, None, ref),
+                                                    ("large wav file, eager", wav_p, {}, None, ref), ("large wav file, lazy", wav_p, dict(large_file=True), None, ref),
+                                                    ("large wav file, eager, max_read", wav_p, {}, dict(max_read=t), ref_mr),
+                                                    ("large raw file, lazy, max_read", raw_p, dict(large_file=True), dict(max_read=t), ref_mr)):
+                    got = impl_split(au, inp, cs, kwx, **extra)
+                    if viol is None and got != want:
+                        viol = {"what": "split() through '%s' (%d Hz, %d bytes x %d channels, window of %d samples, %d bytes of audio) gives %r, the same audio as bytes gives %r" % (
+                            name, rate, w, ch, W, len(d), brief(got)[1][:6] if got[0] == 0 else got, brief(want)[1][:6] if want[0] == 0 else want),
+                                "container": name, "rate": rate, "sw": w, "ch": ch, "window_samples": W, "activity_pattern": pat if len(pat) < 50 else "long", "max_read": (kwx or {}).get("max_read")}
+                res.notes["large_container_bytes_%d" % bi] = len(d)
     finally:
         shutil.rmtree(tmpd, ignore_errors=True)
     uniq = {}
